@@ -1,7 +1,7 @@
 """C06 — buffered descriptor / TCP connection preserves the byte stream (BufferedFd, TcpConnection)."""
 import vlib
 ID = 'C06'
-LEAN_MODULES = ['TboxModel.C06.Props', 'TboxModel.C06.NetProps']
+LEAN_MODULES = ['TboxModel.C06.Props', 'TboxModel.C06.NetProps', 'TboxModel.C06.NetPropsCl', 'TboxModel.C06.KernelProps']
 EXE = 'c06'
 THEOREMS = ['Tbox.C06.C06_send_stream', 'Tbox.C06.C06_send_ghost', 'Tbox.C06.C06_send_drop_only_on_error',
             'Tbox.C06.C06_send_progress', 'Tbox.C06.C06_send_drains', 'Tbox.C06.C06_send_complete_only_when_empty',
@@ -13,7 +13,13 @@ THEOREMS = ['Tbox.C06.C06_send_stream', 'Tbox.C06.C06_send_ghost', 'Tbox.C06.C06
             'Tbox.C06.Net.C06_net_tokens_unique', 'Tbox.C06.Net.C06_net_accept_token', 'Tbox.C06.Net.C06_net_no_use_after_free',
             'Tbox.C06.Net.C06_net_server_stop_counterexample', 'Tbox.C06.Net.C06_net_connector_fail_counterexample',
             'Tbox.C06.Net.C06_net_server_stop_clears', 'Tbox.C06.Net.C06_net_server_quiet', 'Tbox.C06.Net.C06_net_one_attempt',
-            'Tbox.C06.Net.C06_net_stop_cancels']
+            'Tbox.C06.Net.C06_net_stop_cancels',
+            'Tbox.C06.Net.C06_net_client_conn_order', 'Tbox.C06.Net.C06_net_client_quiet', 'Tbox.C06.Net.C06_net_client_view',
+            'Tbox.C06.Net.C06_net_connector_idle_unless_connecting',
+            'Tbox.C06.Kern.C06_kernel_stream', 'Tbox.C06.Kern.C06_active_close_delivers_partial', 'Tbox.C06.Kern.C06_kernel_over_model',
+            'Tbox.C06.Kern.C06_peer_reads_to_eof', 'Tbox.C06.Kern.C06_abortive_close_resets', 'Tbox.C06.Kern.C06_unix_close_keeps_queue',
+            'Tbox.C06.Kern.C06_linger_close_counterexample', 'Tbox.C06.Kern.C06_close_unread_inbound_counterexample',
+            'Tbox.C06.Kern.C06_width_cast', 'Tbox.C06.Kern.C06_width_remainder', 'Tbox.C06.Kern.C06_width_negative_cast_counterexample']
 SOURCES = ['modules/network/buffered_fd.cpp', 'modules/network/tcp_connection.cpp', 'modules/network/socket_fd.cpp',
            'modules/network/sockaddr.cpp', 'modules/network/ip_address.cpp', 'modules/util/fd.cpp', 'modules/util/buffer.cpp',
            'modules/network/tcp_server.cpp', 'modules/network/tcp_client.cpp', 'modules/network/tcp_acceptor.cpp',
@@ -34,20 +40,34 @@ TRUSTED = ['model lean/TboxModel/C06/Model.lean is hand-written from buffered_fd
            'differential runs to quiescence on a Unix-domain socket under a virtual clock, callbacks printed per connection in canonical form',
            'the end-to-end runs (TcpServer+TcpClient, TcpAcceptor+TcpConnector over a Unix-domain socket, no interposition) are judged against the '
            'stream/close specification directly (driver e2eLine), not against the BufferedFd model',
-           'private members are read for the M line and the private TcpConnection constructor is called via `#define private public` in the harness only']
+           'private members are read for the M line and the private TcpConnection constructor is called via `#define private public` in the harness only',
+           'kernel-queue model lean/TboxModel/C06/Kernel.lean (bytes accepted by write(2) stay queued until the peer application reads; close by the deferred '
+           'delete of the BufferedFd: graceful = queue then EOF, SO_LINGER{on,0} on AF_INET or unread inbound data = abortive; shutdown(SHUT_WR) = EOF after '
+           'the queue) is hand-written from Linux tcp_close()/unix_release_sock() semantics; tied (a) on the interposed AF_UNIX pair: the peer application '
+           'reads only through `pread`, the real kernel decides EOF vs ECONNRESET, fcntl/setsockopt/shutdown/close on the descriptor are interposed and '
+           'compared as `M … sys=`; (b) on a real AF_INET loopback connection (`tcp` lines: TcpServer::disconnect / TcpServer::stop / TcpClient::stop at '
+           'send-complete, raw peer with a small SO_RCVBUF that reads one chunk only when the sender is stuck, no interposed I/O)']
 ASSUMPTIONS = ['plumbing cases: at most one connector retries or reconnects at a time (two-client cases run without auto-reconnect), callback scripts '
                'do not call cleanup(), callbacks that would feed each other for ever are cut off on both sides (`P livelock`)',
                'the kernel delivers bytes of a stream socket in order and reports EOF only after them (oracle: `pending`, `eof`)',
                'a write(2) answer accepts at most the bytes offered; readv(2) returns 0 only at EOF',
                'callbacks do not destroy the object they are called from; TcpConnection objects are deleted only by deferred tasks',
-               'inside one epoll dispatch the events subscribed at its start are served in subscription order, each only if still subscribed (C03)']
+               'inside one epoll dispatch the events subscribed at its start are served in subscription order, each only if still subscribed (C03)',
+               'the kernel delivers a stream socket\'s send queue in order; close(2) without SO_LINGER and without unread inbound data delivers the queue, then FIN; '
+               'with SO_LINGER{on,0} (AF_INET) or unread inbound data it discards what has not reached the peer and the peer reads ECONNRESET',
+               'C06_active_close_delivers_partial assumes no inbound data is unread at the close (C06_close_unread_inbound_counterexample, replayed on the real code by the `tcp … opu` line)',
+               'errno values other than EAGAIN are one oracle answer each (`er`: EPIPE for write, ECONNRESET for readv); the code only distinguishes EAGAIN']
 RULE = ('op sequences on one BufferedFd or TcpConnection generated by props/C06/plugin.py: sends of 0 B..256 KiB (thorough: 4 MiB) before '
         'enable / while running / after disable, scripted kernel answers (partial accept, a0, EAGAIN, error; read chunks, boundary fills, '
-        'EAGAIN, error), thresholds 0..N, callbacks consuming 0/some/all and calling send/enable/disable/disconnect, peer close at any point; '
+        'EAGAIN, error), thresholds 0..N, callbacks consuming 0/some/all and calling send/enable/disable/disconnect, peer close at any point, '
+        'peer-application reads of 1 B..everything at any point, shutdown(SHUT_WR), active close with bytes still in the kernel queue / with unread inbound data; '
+        'AF_INET loopback runs of 2-4 MiB (thorough 8-12 MiB) with sends of 1 B..3 MiB closed actively at send-complete; plumbing op lists with fault schedules on '
+        'socket/connect/accept/SO_ERROR; '
         'non-trivial = the model run takes at least two distinct fault/boundary branches (partial or EAGAIN write, queued send, enable with '
         'queued bytes, leftover re-presentation, multi-chunk read, below-threshold read, EOF, write stall, drop); distinct = distinct op text')
 
-INTERESTING = {'send-partial', 'send-eagain', 'send-before-enable', 'send-append', 'send-error-drop', 'enable-with-queued',
+INTERESTING = {'close-with-queue', 'close-unread', 'shut-with-queue', 'pread-left', 'pread-end-eof', 'pread-end-reset', 'tcp-2MiB', 'net-connect-refused', 'net-accept-aborted',
+               'send-partial', 'send-eagain', 'send-before-enable', 'send-append', 'send-error-drop', 'enable-with-queued',
                'rd-with-leftover', 'rd-multi-chunk', 'rd-below-threshold', 'rd-eof', 'rd-fault', 'rd-stopped-early',
                'flush-at-close', 'rw-both', 'rw-write-skipped', 'rw-armed-in-dispatch', 'e2e-threshold', 'e2e-sndbuf',
                'net-svstop-live', 'net-svcleanup-live', 'net-stale-token', 'net-svdisc', 'net-retry-timer', 'net-sv-disconnected',
@@ -97,7 +117,7 @@ def wanswers(rng, n):
     for _ in range(rng.choice([1, 1, 2, 3, 5])):
         q = rng.random()
         if q < 0.55:
-            k = rng.choice([0, 1, 1, 2, 3, 7, max(n - 1, 0), n, n + 1, n // 2, 1000, 4096])
+            k = rng.choice([0, 1, 1, 2, 3, 7, max(n - 1, 0), n, n + 1, n // 2, 1000, 4096, 2147483647, 2147483648, 4294967296, 9223372036854775807, 18446744073709551615])
             out.append('a%d' % k); _count('w-partial' if k < n else 'w-accept')
         elif q < 0.9:
             out.append('ea'); _count('w-eagain')
@@ -129,7 +149,11 @@ def rcb(rng, tier, conn):
 
 
 def flush(rng):
-    return ['wmax 0'] + ['wr'] * 5 + ['rw', 'wr', 'rd', 'rd', 'rw', 'wr']
+    return ['wmax 0'] + ['wr'] * 5 + ['rw', 'wr', 'rd', 'rd', 'rw', 'wr'] + ['defer', 'pread %d' % rng.choice([1, 3, 70000, 9999999]), 'pread 9999999', 'pread 1']
+
+
+def pread(rng):
+    return 'pread %d' % rng.choice([1, 1, 2, 3, 7, 100, 1024, 65536, 9999999])
 
 
 def gen_case(rng, tier, nops):
@@ -191,7 +215,7 @@ def gen_case(rng, tier, nops):
         elif r < 0.92:
             ops.append('rmax %d' % rng.choice([0, 1, 2, 1024]))
         elif r < 0.94:
-            ops.append('shr')
+            ops.append(rng.choice(['shr', 'defer', pread(rng), pread(rng)] + (['shut'] if conn and rng.random() < 0.3 else [])))
         elif r < 0.97 and not conn:
             ops.append('%s %s' % (rng.choice(['zcb', 'recb', 'wecb']), script(rng, tier, False)))
         elif conn:
@@ -246,6 +270,52 @@ def gen_rw(rng, tier):
     return ops + ['peof', 'rw', 'rw'] + flush(rng)
 
 
+def gen_close(rng, tier):
+    """active close of a TcpConnection with bytes still in the kernel queue: every accept pattern in front of it, the
+    peer application reading before / between / after at every pace, disconnect from the main flow or from inside the
+    send-complete / receive callback, close by a pass or by a deferred-only pass, unread inbound data at the close,
+    shutdown(SHUT_WR) instead of / before the close, the peer closing first"""
+    ops = ['cinit', 'dcb ' + rng.choice(['-', '-', 'none', 's:01'])]
+    how = rng.choice(['op', 'op', 'scb', 'rcb', 'shut', 'shut+op', 'peer'])
+    ops.append('scb ' + ('disc' if how == 'scb' else rng.choice(['-', '-', 'none', 's:aabb'])))
+    ops.append('rcb %d %d %s' % (rng.choice([0, 0, 1, 4]), rng.choice([0, 1, 100000]), 'disc' if how == 'rcb' else rng.choice(['-', 's:cc'])))
+    last_n = 8
+    for _ in range(rng.choice([1, 2, 3, 5])):
+        if rng.random() < 0.6: ops.append('kw ' + ' '.join(wanswers(rng, last_n)))
+        d, last_n = payload(rng, tier, small=rng.random() < 0.5)
+        ops.append('send ' + d)
+        if rng.random() < 0.4: ops.append(pread(rng))
+        if rng.random() < 0.5: ops.append('wr')
+    for _ in range(rng.choice([0, 1, 3, 6])):
+        ops.append(rng.choice(['wr', 'wr', 'wr', pread(rng), 'rw']))
+    if rng.random() < 0.7: ops += ['wmax 0', 'wr', 'wr', 'wr', 'wr']               # everything written: send-complete
+    if rng.random() < 0.3: ops.append('feed ' + rbytes(rng, rng.choice([1, 2, 300])))   # inbound data, unread at the close unless a pass reads it
+    if how == 'rcb': ops += ['feed 05', 'rd']
+    elif how == 'peer': ops += ['peof', rng.choice(['rd', 'rw'])]
+    elif how in ('shut', 'shut+op'): ops.append('shut')
+    if how in ('op', 'shut+op'): ops.append('disc')
+    for _ in range(rng.choice([0, 1, 2])): ops.append(pread(rng))
+    ops.append(rng.choice(['defer', 'defer', 'wr', 'rd', 'rw']))
+    if rng.random() < 0.3: ops += ['send 0102', 'disc', 'shut', 'defer']
+    for _ in range(rng.choice([1, 2, 4])): ops.append(pread(rng))
+    return ops + ['pread 9999999', 'pread 9999999', 'defer', 'pread 1']
+
+
+def gen_tcp(rng, tier, closer, how=None):
+    """AF_INET loopback, slow raw peer with a small SO_RCVBUF, active close right after send-complete"""
+    big = tier == 'thorough'
+    total = rng.choice([8, 8, 10, 12] if big else [2, 3, 3, 4]) * 1048576 + rng.choice([0, 1, 4095, 70001])
+    sizes = [1, rng.choice([2, 1000, 4097]), rng.choice([65536, 65537, 300000])]
+    if rng.random() < 0.7: sizes.append(rng.choice([1048576, 2097153, 3145728]) if not big else rng.choice([3145728, 4194305]))
+    rest = total - sum(sizes)
+    while rest > 0:
+        k = min(rest, 8388608 if big else 3145728, rng.choice([rest, rest, 1048577, 2000000]))
+        sizes.append(k); rest -= k
+    rng.shuffle(sizes)
+    return 'tcp %s %s %d %d %s' % (closer, how or rng.choice(['cb', 'op']), rng.choice([2048, 4096, 16384, 65536]), rng.choice([1024, 16384, 65536, 262144]),
+                                   ','.join('%d:%d' % (rng.randrange(256), k) for k in sizes))
+
+
 def gen_e2e(rng, tier):
     mode = rng.choice(['sc', 'ac'])
     closer = rng.choice('csh')
@@ -257,6 +327,9 @@ def gen_e2e(rng, tier):
     thr = 0 if closer == 's' else rng.choice([0, 1, 2, 1000, 4096, 100000])
     sb = 0 if mode == 'sc' else rng.choice([0, 1, 2048, 4096, 65536])
     return 'e2e %s %d %d %d %d %d %s %d' % (mode, n1, c1, n2, c2, thr, closer, sb)
+
+
+NFAULTS = ['socket', 'late', 'accept', 'inprog', 'eintr', 'again', 'abortkeep', 'refuse', 'abort']
 
 
 def nscript(rng, allowed):
@@ -298,7 +371,7 @@ def gen_net(rng, tier, flavour):
         pre = rng.random() < 0.5
         if pre: ops += ['nsinit'] + (['nsstart'] if rng.random() < 0.7 else [])
         ops += ['nkinit %d' % tries, 'nkcb fail ' + rng.choice(['-', 'stop', 'stop', 'cleanup']), 'nkcb conn ' + rng.choice(['-', '-', 'stop', 'cleanup'])]
-        if rng.random() < 0.3: ops.append('nfault %s %d' % (rng.choice(['socket', 'late', 'accept', 'inprog']), rng.choice([1, 1, 2])))
+        if rng.random() < 0.3: ops.append('nfault %s %d' % (rng.choice(NFAULTS), rng.choice([1, 1, 2])))
         if rng.random() < 0.5: sv_cbs()
         for _ in range(rng.choice([4, 8, 14])):
             r = rng.random()
@@ -311,7 +384,7 @@ def gen_net(rng, tier, flavour):
             elif r < 0.86: ops.append('nsstart')
             elif r < 0.9: ops.append('nsstop')
             elif r < 0.93: ops.append('nscleanup')
-            elif r < 0.96: ops.append('nfault %s %d' % (rng.choice(['socket', 'late', 'accept']), rng.choice([1, 2, 3])))
+            elif r < 0.96: ops.append('nfault %s %d' % (rng.choice(['socket', 'late', 'accept', 'again', 'abortkeep', 'refuse', 'abort']), rng.choice([1, 2, 3])))
             else: ops.append('nkcb fail ' + rng.choice(['-', 'stop', 'cleanup']))
         return ops + ['nadv 1000', 'nkstop', 'nadv 1000', 'nscleanup']
 
@@ -346,7 +419,7 @@ def gen_net(rng, tier, flavour):
         elif r < 0.77 and not two: ops.append('nsinit')
         elif r < 0.83 and not two: ops.append('nadv %d' % rng.choice([1, 999, 1000, 1000, 1001, 3000]))
         elif r < 0.845 and not two: ops.append('ncrec 0 %d' % rng.randrange(2))
-        elif r < 0.86 and not two: ops.append('nfault %s %d' % (rng.choice(['socket', 'late', 'accept', 'inprog']), rng.choice([1, 1, 2, 3])))
+        elif r < 0.86 and not two: ops.append('nfault %s %d' % (rng.choice(NFAULTS), rng.choice([1, 1, 2, 3])))
         elif r < 0.90: w = rng.choice(['conn', 'disc', 'recv']); ops.append('nscb %s %s' % (w, nscript(rng, sv_allowed[w])))
         elif r < 0.93: w = rng.choice(['conn', 'disc', 'recv', 'sc']); ops.append('nccb %d %s %s' % (i, w, nscript(rng, cl_allowed[w])))
         elif not two:
@@ -414,6 +487,21 @@ def gen(rng, tier):
         yield gen_rw(rng, tier)
     for _ in range(2 if tier == 'quick' else 12):
         yield [gen_e2e(rng, tier) for _ in range(3 if tier == 'quick' else 6)]
+    # the kernel leg: active close with bytes still queued (interposed, AF_UNIX pair) ...
+    yield ['cinit', 'scb -', 'send 010203', 'pread 1', 'wr', 'disc', 'pread 5', 'defer', 'pread 5', 'pread 5']
+    yield ['cinit', 'scb disc', 'kw a1 ea a1', 'send 010203', 'pread 1', 'wr', 'wr', 'wr', 'wr', 'pread 9', 'pread 9']
+    yield ['cinit', 'send 0708', 'shut', 'pread 1', 'pread 1', 'pread 1', 'send 09', 'wr']                    # write after shutdown(SHUT_WR)
+    yield ['cinit', 'scb -', 'send 010203', 'wr', 'feed 09', 'disc', 'defer', 'pread 9', 'pread 9', 'pread 9']   # unread inbound data at the close
+    yield ['cinit', 'dcb -', 'send 07', 'peof', 'rd', 'pread 3', 'pread 3']
+    yield ['malformed: kernel', 'pread', 'pread 0', 'pread x', 'shut', 'init 3', 'shut', 'defer 1', 'tcp', 'tcp xx op 4096 65536 7:100', 'tcp cs op 4096 65536 7:0',
+           'tcp cs zz 4096 65536 7:1', 'tcp cs op 1 65536 7:1', 'tcp cs op 4096 1 7:1', 'tcp cs op 4096 65536 256:1', 'tcp cs op 4096 65536 7:1,', 'tcp cs op 4096 65536 7:9000000']
+    for _ in range(n // 2):
+        yield gen_close(rng, tier)
+    # ... and on a real AF_INET loopback connection (no interposed I/O), one run per way of closing actively
+    for closer in ('sd', 'ss', 'cs') * (1 if tier == 'quick' else 2):
+        yield [gen_tcp(rng, tier, closer)]
+    # C06_close_unread_inbound_counterexample on the real code: inbound bytes unread at the active close -> the peer's read ends with a reset
+    yield ['tcp %s opu 4096 65536 1:1,2:300000,3:1000000' % rng.choice(['sd', 'ss', 'cs'])]
     # the TCP plumbing: directed cases first
     yield ['nsinit', 'nsstart', 'ncinit 0', 'ncrec 0 0', 'ncstart 0', 'nscb disc stop', 'ncstop 0', 'nsstart', 'nscleanup']    # stop() in a disconnected callback
     yield ['nkinit 2', 'nkcb fail stop', 'nkstart', 'nadv 1000', 'nadv 1000', 'nkstart', 'nadv 1000']                          # stop() in the connect-fail callback after a retry
@@ -432,6 +520,9 @@ def gen(rng, tier):
     yield ['nsinit', 'nsstart', 'nfault socket 2', 'ncinit 0', 'ncstart 0', 'nadv 1000', 'nadv 1000', 'ncstop 0', 'ncstart 0']
     yield ['nsinit', 'nsstart', 'nfault late 1', 'ncinit 0', 'ncstart 0', 'nadv 1000', 'nkinit 1', 'nkcb fail stop', 'nfault late 1', 'nkstart']  # connect fails after EINPROGRESS
     yield ['nsinit', 'nsstart', 'nfault accept 3', 'ncinit 0', 'ncstart 0', 'ncsend 0 01', 'nfault inprog 1', 'ncinit 1', 'ncrec 1 0', 'ncstart 1']
+    yield ['nsinit', 'nsstart', 'nfault refuse 2', 'ncinit 0', 'ncstart 0', 'nadv 1000', 'nadv 1000', 'ncsend 0 01', 'nkinit 1', 'nkcb fail stop', 'nfault refuse 1', 'nkstart']   # connect() refused at once
+    yield ['nsinit', 'nsstart', 'nfault abort 1', 'ncinit 0', 'nccb 0 conn s:0102', 'ncstart 0', 'nadv 1000', 'ncsend 0 03', 'nfault abort 2', 'nrconn', 'nrsend 05', 'nrclose']     # accept() ECONNABORTED, connection gone
+    yield ['nsinit', 'nsstart', 'nfault again 2', 'ncinit 0', 'ncstart 0', 'nfault abortkeep 1', 'ncinit 1', 'ncrec 1 0', 'ncstart 1', 'nfault eintr 1', 'nkinit 1', 'nkstart']
     yield ['nsinit', 'nsstart', 'ncinit 0', 'ncstart 0', 'nsshut 0', 'ncstart 0', 'ncshut 0', 'nssend 0 01', 'nsshut 5']                   # half-close from either side
     yield ['nsinit', 'nsstart', 'ncinit 0', 'ncstart 0', 'nbudget 3', 'nccb 0 sc m:aa', 'nscb sc m:bb', 'ncsend 0 01', 'nssend 0 02']     # send-complete callbacks that send more
     yield ['nsinit', 'nsstart', 'ncinit 0', 'ncstart 0', 'nscb recv shut', 'ncsend 0 01', 'nccb 0 recv shut', 'nssend 0 02']
@@ -471,9 +562,12 @@ LEVEL_TEXT = ('Lean 4 theorems over a hand-written model of BufferedFd + TcpConn
               'list (API calls, callback scripts, kernel answer patterns, pass orders, peer writes/close) wire ++ sendQ = bytes accepted by '
               'send in order, Running and queued implies write event armed, send-complete only with nothing outstanding, bytes read = bytes '
               'fed in order with unconsumed bytes re-presented as a prefix, read-zero / disconnected at most once and only after every byte '
-              'the peer wrote has been presented (any threshold); counterexamples for the code as found; tied to the code on every run by differential execution with interposed write/readv/epoll_wait')
-LEVEL_NOTE = ('client-side per-connection order and client silence after stop() are compared on every run but not proved (OPEN in NetProps.lean); '
-              'accept() failure (EMFILE) and socket() failure paths are not exercised; trusted: Lean kernel, hand-written model + differential tie (coverage bounded by the generator, measured in evidence); the kernel '
+              'the peer wrote has been presented (any threshold); what write(2) accepted reaches the peer application complete and in order, then EOF, after an active '
+              'close at send-complete (kernel-queue model, every peer pacing; counterexamples for SO_LINGER{on,0} and for unread inbound data); client-side callback '
+              'automaton and silence after stop() for every op list; counterexamples for the code as found; tied to the code on every run by differential execution with '
+              'interposed write/readv/epoll_wait/fcntl/setsockopt/shutdown/close and by real AF_INET loopback runs')
+LEVEL_NOTE = ('the last leg (kernel queue -> peer application) is proved over the kernel-queue model under the hypothesis that no inbound data is unread at the '
+              'close (false without it on AF_INET: counterexample theorem + replay on the real code); the amount of data lost by an abortive close is an oracle; trusted: Lean kernel, hand-written model + differential tie (coverage bounded by the generator, measured in evidence); the kernel '
               'is an oracle; bind()/receiver forwarding is not modelled; TcpServer/TcpClient/acceptor/connector are exercised end-to-end '
               'against the stream/close specification, not modelled')
 TECHNIQUE = 'Lean 4 invariant proofs over all operation lists with kernel oracle + model/implementation correspondence check'
